@@ -1392,6 +1392,23 @@ func (x *sealedScn) runFlow() {
 	if !sc.Rotate {
 		return
 	}
+	if sc.Variant%2 == 0 {
+		// the application has tagged the node's record with a node ID of its own (the library never sets one)
+		cur, err := sealedLibLoad(x.ctx, srv.side.inner, sealedNI, A.keyID, srv.side.opts()...)
+		if err != nil {
+			fail("load node information to tag it", err)
+			return
+		}
+		tagged := cur.(*types.NodeInformation)
+		tagged.NodeId = "node-" + hex.EncodeToString(world.RandBytes(3))
+		x.secretsOfInfo(tagged)
+		_ = srv.side.inner.Remove(x.ctx, &types.NodeInformation{Id: tagged.Id})
+		if err := x.libStore(srv.side, tagged); err != nil {
+			fail("store tagged node information", err)
+			return
+		}
+		r.Count("flow_step:rotation-of-a-record-with-node-id", 1)
+	}
 	oldCreds := A.creds
 	newCreds, err := types.NewNodeCredentials(x.ctx, A.side.store, nodeenrollment.WithSkipStorage(true))
 	if err != nil {
@@ -1623,6 +1640,7 @@ func runSealed(c *engine.Ctx) engine.Result {
 	r.Require("substring_searches", 5000)
 	r.Require("transplant_controls_ok", 100)
 	r.Require("flow_step:rotate-node-credentials", 10)
+	r.Require("flow_step:rotation-of-a-record-with-node-id", 4)
 	r.Require("flow_step:retain-previous-key", 5)
 	r.Require("flow_step:create-token", 30)
 	for _, fl := range world.Flows {
